@@ -24,9 +24,12 @@ RULE = ('cells = place (run/$/% instruction in each phase; -stdout-from in file/
         'run; text-matcher run; file-matcher run; exit-code/stdout/stderr -from; act with % / $ / executable file / '
         '-python / @SYM / file interpreter / source interpreter) x child (sleeps 40 s; sleeps 40 s ignoring SIGTERM; '
         '2 s; 2.5 s; 0.2 s) x timeout history (=1 earlier in phase; =1 in earlier phase; =1 then changed after the '
-        'use; =30 before and =1 after the use; =1 then none before the use; default). quick: a seeded sample of '
-        'the cells, thorough: all cells + a sub-process sample + one run against the 60 s default. Every cell is '
-        'non-trivial; distinct = distinct cell')
+        'use; =30 before and =1 after the use; =1 then none before the use; default) x context (other settings '
+        'made in [setup] that travel in the same process-execution settings as the timeout: env without / with '
+        '-of act / -of !act, before or after the timeout instruction, env unset, cd, stdin - combined with the '
+        'must-fire schedules and the lifted one). quick: a seeded sample of the cells (every act place x every '
+        'context always), thorough: all cells + a sub-process sample + one run against the 60 s default. Every '
+        'cell is non-trivial; distinct = distinct cell')
 ASSUMPTIONS = [
     'wall-clock check: the harness does not own the schedule; a timed-out child must be reported within '
     'timeout + 11 s (12..30 s = inconclusive, >= 30 s = violation since the child itself sleeps 40 s)',
@@ -72,6 +75,18 @@ SCHEDULES = [
     ('long_ignore_term', 'h1_same_phase'), ('2s', 'h4_30_before_1_after'), ('2.5s', 'h5_none'),
     ('0.2s', 'h6_default'),
 ]
+# other settings made in [setup]: (lines at the start of [setup], lines at the end of [setup])
+CONTEXTS = {
+    'env': (['env C19_A = 1'], []),
+    'env-act': (['env -of act C19_A = 1'], []),
+    'env-nonact': (['env -of !act C19_A = 1'], []),
+    'env-late': ([], ['env C19_A = "${C19_A}2"']),
+    'env-act-late': ([], ['env -of act C19_A = 1']),
+    'env-unset': (['env unset C19_NOT_SET'], []),
+    'cd': (['dir -rel-act c19-dir', 'cd -rel-act c19-dir'], []),
+    'stdin': (['stdin = "c19 stdin"'], []),
+}
+CONTEXT_SCHEDULES = [('long', 'h1_same_phase'), ('long', 'h2_earlier_phase'), ('2.5s', 'h5_none')]
 CHILD_SLEEP = {'long': 40, 'long_ignore_term': 40, '2s': 2, '2.5s': 2.5, '0.2s': 0.2, '61s-default': 75}
 
 
@@ -88,6 +103,18 @@ def all_cells():
                     # instruction is therefore ambiguous and not part of the domain
                     continue
                 yield {'place': place, 'phase': ph, 'child': child, 'history': hist}
+    for place in sorted(PLACES):
+        phases, _ = PLACES[place]
+        for ph in phases:
+            for ctx in sorted(CONTEXTS):
+                if ctx == 'stdin' and place == 'stdin-stdout-from':
+                    continue
+                if ctx.endswith('-late') and ph == 'setup':
+                    continue  # would come after the use
+                for child, hist in CONTEXT_SCHEDULES:
+                    if hist == 'h2_earlier_phase' and ph == 'setup':
+                        continue
+                    yield {'place': place, 'phase': ph, 'child': child, 'history': hist, 'ctx': ctx}
 
 
 def build(cell):
@@ -130,6 +157,9 @@ def build(cell):
         use(['timeout = none'], [])
     elif hist == 'h6_default':
         use([], [])
+    if cell.get('ctx'):
+        first, last = CONTEXTS[cell['ctx']]
+        p['setup'] = list(first) + p['setup'] + list(last)
     out = []
     for x in ['conf', 'setup', 'act', 'before-assert', 'assert', 'cleanup']:
         if x == 'conf' and not p['conf']:
@@ -202,13 +232,16 @@ def check(cell) -> Verdict:
     subproc = bool(cell.get('subproc'))
     o = run_cell(cell, subproc)
     labels = ['place:' + cell['place'], 'phase:' + cell['phase'], 'child:' + cell['child'],
-              'history:' + cell['history'], 'ident:%s' % o['ident']] + (['subproc'] if subproc else [])
-    key = '%s|%s|%s|%s|%s' % (cell['place'], cell['phase'], cell['child'], cell['history'], subproc)
+              'history:' + cell['history'], 'ident:%s' % o['ident'], 'ctx:' + cell.get('ctx', 'plain')] \
+        + (['subproc'] if subproc else [])
+    key = '%s|%s|%s|%s|%s|%s' % (cell['place'], cell['phase'], cell['child'], cell['history'], subproc,
+                                 cell.get('ctx', 'plain'))
     detail = {'cell': cell, 'case_text': o['text'], 'observed': {k: v for k, v in o.items() if k != 'text'}}
 
     def bad(what):
-        return fail('%s/%s/%s' % (what, cell['place'], cell['history']), detail, labels=labels, nontrivial=True,
-                    key=key)
+        return fail('%s/%s/%s%s' % (what, cell['place'], cell['history'],
+                                    '/ctx-' + cell['ctx'] if cell.get('ctx') else ''),
+                    detail, labels=labels, nontrivial=True, key=key)
 
     if o['exception']:
         return bad('exception-escaped')
@@ -265,8 +298,12 @@ def enum_cells(tier):
         picked = []
         for i, c in enumerate(cells):
             h = (i * 2654435761 + seed * 40503) % 7
-            if h < 3 or (c['history'] == 'h1_same_phase' and c['child'] == 'long'
-                          and (c['phase'] in ('act', 'assert', 'setup') or h < 3)):
+            if c.get('ctx'):
+                # every act place x every context with the must-fire schedule, and a seeded 1/7 of the rest
+                if (c['phase'] == 'act' and c['history'] == 'h1_same_phase') or h == 0:
+                    picked.append(c)
+            elif h < 3 or (c['history'] == 'h1_same_phase' and c['child'] == 'long'
+                           and (c['phase'] in ('act', 'assert', 'setup') or h < 3)):
                 picked.append(c)
         return picked
     extra = [dict(c, subproc=True) for i, c in enumerate(cells) if i % 9 == 0]
